@@ -20,6 +20,16 @@ import (
 	"github.com/quay/claircore/verifharness/internal/hx"
 )
 
+// spread maps consecutive seeds to far-apart generator states: hx.NewRand's
+// state is linear in the seed with the generator's own increment, so seeds 1
+// and 2 would yield the same stream shifted by one draw.
+func spread(seed uint64) uint64 {
+	z := seed + 0x9E3779B97F4A7C15
+	z = (z ^ (z >> 30)) * 0xBF58476D1CE4E5B9
+	z = (z ^ (z >> 27)) * 0x94D049BB133111EB
+	return z ^ (z >> 31)
+}
+
 func repoPath() string {
 	if p := os.Getenv("VERIF_REPO"); p != "" {
 		return p
@@ -58,7 +68,7 @@ func Run(cfg hx.Config) error {
 	if err != nil {
 		return fmt.Errorf("fixtures: %w", err)
 	}
-	h := &harness{ctx: context.Background(), cfg: cfg, r: r, rnd: hx.NewRand(cfg.Seed), fx: fx,
+	h := &harness{ctx: context.Background(), cfg: cfg, r: r, rnd: hx.NewRand(spread(cfg.Seed)), fx: fx,
 		scanned: map[string]map[string]*claircore.Distribution{}}
 	r.Op("reset", "ok", false)
 	h.sectionStatic()
